@@ -57,7 +57,8 @@ fn window_script(script: &Value, sid: usize, dir: &Path, out: &mut Vec<Value>) {
         let op = jstr(step, "op", "fill").to_string();
         let mut ev = step.clone();
         ev["e"] = json!("op");
-        let (ok, val) = match op.as_str() {
+        // a panic of the code under test is data: recorded, and the script ends there
+        let res = std::panic::catch_unwind(std::panic::AssertUnwindSafe(|| match op.as_str() {
             "fill" => match w.fill() {
                 Ok(b) => (true, b as i64),
                 Err(_) => (false, 0),
@@ -66,7 +67,10 @@ fn window_script(script: &Value, sid: usize, dir: &Path, out: &mut Vec<Value>) {
             "remove" => (w.remove(jint(step, "k", 0) as u16).is_ok(), 0),
             "add" => (w.add(json_bytes(&step["d"])).is_ok(), 0),
             _ => (false, -1),
-        };
+        }));
+        let panicked = res.is_err();
+        let (ok, val) = res.unwrap_or((false, 0));
+        ev["panic"] = json!(panicked);
         ev["ok"] = json!(ok);
         ev["val"] = json!(val);
         ev["elems"] = Value::Array(w.get_elements().iter().map(|c| bytes_json(c)).collect());
@@ -75,6 +79,9 @@ fn window_script(script: &Value, sid: usize, dir: &Path, out: &mut Vec<Value>) {
         ev["empty"] = json!(w.is_empty());
         ev["file"] = bytes_json(&fs::read(&path).unwrap_or_default());
         out.push(ev);
+        if panicked {
+            break;
+        }
     }
 }
 
@@ -156,7 +163,7 @@ fn codec_vector(v: &Value, sid: usize, out: &mut Vec<Value>) {
         let mut ev = json!({"e":"dec","sid":sid,"b":bytes_json(&bytes),"res":res.clone()});
         if res["t"] != "err" && res["t"] != "panic" {
             let p = Packet::deserialize(&bytes).unwrap();
-            match p.serialize() {
+            match std::panic::catch_unwind(move || p.serialize()).unwrap_or_else(|_| Ok(b"PANIC".to_vec())) {
                 Ok(re) => {
                     ev["redec"] = decode_result(&re);
                     ev["reenc"] = bytes_json(&re);
@@ -170,20 +177,23 @@ fn codec_vector(v: &Value, sid: usize, out: &mut Vec<Value>) {
         out.push(ev);
     } else if let Some(p) = v.get("p") {
         let packet = json_packet(p);
-        let bytes = packet.serialize().unwrap_or_default();
+        let bytes = std::panic::catch_unwind(move || packet.serialize().unwrap_or_default()).unwrap_or_else(|_| b"PANIC".to_vec());
         out.push(json!({"e":"enc","sid":sid,"p":p.clone(),"bytes":bytes_json(&bytes),"p2":decode_result(&bytes)}));
     } else if let Some(r) = v.get("u16") {
         let from = r[0].as_u64().unwrap_or(0);
         let to = r[1].as_u64().unwrap_or(65535);
         for n in from..=to {
             let n = n as u16;
-            match Opcode::from_u16(n) {
-                Ok(op) => out.push(json!({"e":"op","sid":sid,"n":n,"ok":true,"bytes":bytes_json(&op.as_bytes())})),
-                Err(_) => out.push(json!({"e":"op","sid":sid,"n":n,"ok":false,"bytes":[]})),
+            // a panic of the code under test is data, not a harness failure
+            match std::panic::catch_unwind(move || Opcode::from_u16(n).ok().map(|op| op.as_bytes())) {
+                Ok(Some(b)) => out.push(json!({"e":"op","sid":sid,"n":n,"ok":true,"panic":false,"bytes":bytes_json(&b)})),
+                Ok(None) => out.push(json!({"e":"op","sid":sid,"n":n,"ok":false,"panic":false,"bytes":[]})),
+                Err(_) => out.push(json!({"e":"op","sid":sid,"n":n,"ok":false,"panic":true,"bytes":[]})),
             }
-            match ErrorCode::from_u16(n) {
-                Ok(ec) => out.push(json!({"e":"ec","sid":sid,"n":n,"ok":true,"bytes":bytes_json(&ec.as_bytes())})),
-                Err(_) => out.push(json!({"e":"ec","sid":sid,"n":n,"ok":false,"bytes":[]})),
+            match std::panic::catch_unwind(move || ErrorCode::from_u16(n).ok().map(|ec| ec.as_bytes())) {
+                Ok(Some(b)) => out.push(json!({"e":"ec","sid":sid,"n":n,"ok":true,"panic":false,"bytes":bytes_json(&b)})),
+                Ok(None) => out.push(json!({"e":"ec","sid":sid,"n":n,"ok":false,"panic":false,"bytes":[]})),
+                Err(_) => out.push(json!({"e":"ec","sid":sid,"n":n,"ok":false,"panic":true,"bytes":[]})),
             }
         }
     }
